@@ -119,6 +119,10 @@ func (calc *RewardCalculator) secondsPerCycleLatest() (int64, time.Time) {
 		tBegin := calc.blockStore.LoadBlockMeta(cycleBeginHeight).Header.Time.UTC()
 		tEnd = calc.blockStore.LoadBlockMeta(cycleEndHeight).Header.Time.UTC()
 		secsPerCycle = int64(tEnd.Sub(tBegin).Seconds())
+		if secsPerCycle < 1 {
+			// a cycle that took less than a second counts as one second: the block forecast divides by it
+			secsPerCycle = 1
+		}
 	}
 	return secsPerCycle, tEnd
 }
